@@ -94,6 +94,12 @@ func c06SplitX(c *core.Ctx, cmem, long bool) {
 		wc = widthClassFor(c.R, N)
 	}
 	run := GenRun(model, c.R, N, N, N, T, wc)
+	if model == "Sacramento" && c.R.Bool(0.4) {
+		// the regime in which Sacramento's stores cross each other (storms, then heat waves, on a thin lower tension zone)
+		for k := range run.Sets {
+			sacramentoAdimcStress(c.R, run.Sets[k], run.Inputs[k])
+		}
+	}
 	kind, splits := splitSchedule(c.R, T)
 	emptyWindow := false
 	if !long && c.R.Bool(0.12) && EmptySeriesOK(model) {
